@@ -9,7 +9,7 @@ from cgsim import gen as G, ref
 from cgsim.core import fp, Skip, state_digest
 
 ID = "C16"
-QUICK = dict(worlds=16, runs=1500, seconds=25)
+QUICK = dict(worlds=16, runs=1500, seconds=15)
 THOROUGH = dict(worlds=256, runs=6000, seconds=30)
 RULE = ("seeded histories of edits + remove_unloaded calls on acyclic circuits; distinct = net + op list; "
         "non-trivial = some call had to delete at least one node and keep at least one")
